@@ -95,6 +95,10 @@ fn main() {
                         (d.extra_del(a as usize, &vh::unhex(key)), -1)
                     }
                     "nop" => ("ok".to_string(), -1),
+                    "pstore" => {
+                        let evs: Vec<usize> = op["evs"].as_array().map(|v| v.iter().filter_map(|x| x.as_u64()).map(|x| x as usize).collect()).unwrap_or_default();
+                        (d.pstore(&evs), -1)
+                    }
                     "queries" => {
                         x = json!([op.get("b").and_then(|v| v.as_i64()).unwrap_or(0), "", ""]);
                         ("ok".to_string(), -1)
